@@ -1268,7 +1268,11 @@ func suiteC08(c *Ctx) {
 		}
 		// sometimes an invalid sequence: diagnostics must move with the tokens
 		if g.chance(0.35) {
-			switch g.pick(5) {
+			switch g.pick(6) {
+			case 5:
+				// something that is not the terminator after the last '>' (a comment may stand in between)
+				junk := []string{"...", `"a b"`, "[ 2 ]", "5x", ">", "h->e", "W", "x[1]", "0x1F"}[g.pick(9)]
+				toks = append(toks[:len(toks)-1], junk, ".")
 			case 0:
 				j := g.pick(len(toks))
 				toks = append(toks[:j], toks[j+1:]...)
